@@ -2863,6 +2863,18 @@ def preimage(
     rename_v = rename
     # check
     _assert_valid_rename(target, bdd, rename)
+    # `_image()` renames `target` while descending, which
+    # is correct only if `target` is independent of
+    # the variables that it is renamed to.
+    # Otherwise rename before descending.
+    support = bdd.support(target, as_levels=True)
+    if support.intersection(rename.values()):
+        level_map = {
+            i: rename.get(i, i)
+            for i in bdd._level_to_var}
+        target = _copy_bdd(
+            target, level_map, bdd, bdd, dict())
+        rename_v = None
     return _image(
         trans, target, rename_u, rename_v,
         qvars, bdd, forall, cache)
